@@ -247,6 +247,7 @@ type profile struct {
 	SetLinks  []string
 	MaxLinks  int
 	Depth     int
+	Starts    []string // start forms (first operation of every path)
 }
 
 func newSys(cfg string, profs map[string]*profile) eng.Sys {
@@ -259,6 +260,10 @@ func newSys(cfg string, profs map[string]*profile) eng.Sys {
 // so that all start forms share one visited-set.
 func (s *sys) begin(start string) {
 	s.start = start
+	if strings.HasPrefix(start, "bulk-") {
+		s.beginBulk(start)
+		return
+	}
 	switch start {
 	case "fresh":
 		s.n = new(mdag.ProtoNode)
@@ -300,11 +305,96 @@ func (s *sys) begin(start string) {
 	}
 }
 
+// bulkLinks returns n links over the names {a, b, "", c} (so every name occurs
+// several times) in one of several initial orders. Every link is
+// distinguishable by its Tsize, so the relative order of equal names is
+// observable.
+func bulkLinks(order string, n int) []mlink {
+	names := []string{"a", "b", "", "c"}
+	base := make([]mlink, n)
+	for i := range base {
+		c := t1
+		if i%2 == 1 {
+			c = t2
+		}
+		base[i] = mlink{names[i%len(names)], c, uint64(i + 1)}
+	}
+	srt := append([]mlink{}, base...)
+	stableSort(srt)
+	switch order {
+	case "interleaved":
+		return base
+	case "sorted":
+		return srt
+	case "reversed":
+		out := make([]mlink, n)
+		for i, l := range srt {
+			out[n-1-i] = l
+		}
+		return out
+	case "rotated":
+		k := n / 3
+		return append(append([]mlink{}, srt[k:]...), srt[:k]...)
+	}
+	panic("bulk order " + order)
+}
+
+// beginBulk: "bulk-<ctor>-<order>-<n>": a node that has n (13..20) links before
+// its first sort, built by n AddRawLink calls, one SetLinks call, or by
+// decoding an encoding that carries the links in that order. Library sort
+// routines switch algorithm above a size threshold (Go: 12), which
+// single-link operations in a depth-bounded search never reach.
+func (s *sys) beginBulk(start string) {
+	f := strings.Split(start, "-")
+	ctor, order := f[1], f[2]
+	var n int
+	fmt.Sscanf(f[3], "%d", &n)
+	ls := bulkLinks(order, n)
+	s.links = append([]mlink{}, ls...)
+	switch ctor {
+	case "addraw":
+		s.n = new(mdag.ProtoNode)
+		for _, l := range ls {
+			if err := s.n.AddRawLink(l.Name, &format.Link{Cid: l.Cid, Size: l.Size}); err != nil {
+				panic(err)
+			}
+		}
+		s.linkMutated()
+		s.lastMut = "AddRawLink"
+	case "setlinks":
+		s.n = mdag.NodeWithData([]byte("x"))
+		s.data = []byte("x")
+		arg := []*format.Link{}
+		for _, l := range ls {
+			arg = append(arg, &format.Link{Name: l.Name, Cid: l.Cid, Size: l.Size})
+		}
+		if err := s.n.SetLinks(arg); err != nil {
+			panic(err)
+		}
+		s.linkMutated()
+		s.lastMut = "SetLinks"
+	case "decoded":
+		s.data = []byte("x")
+		nd, err := mdag.DecodeProtobuf(refEncode(s.data, ls))
+		if err != nil {
+			panic(err)
+		}
+		s.n = nd
+		s.sorted = order == "sorted"
+	default:
+		panic("bulk ctor " + ctor)
+	}
+}
+
 func (s *sys) Ops() []string {
 	p := s.prof
 	var ops []string
 	if s.n == nil {
-		for _, st := range starts {
+		sts := p.Starts
+		if sts == nil {
+			sts = starts
+		}
+		for _, st := range sts {
 			ops = append(ops, "Start "+st)
 		}
 		return ops
@@ -761,7 +851,29 @@ func permute(n int, f func(p []int) bool) {
 
 func (s *sys) Close() {}
 
+func bulkStarts(sizes []int) []string {
+	var out []string
+	for _, ctor := range []string{"addraw", "setlinks", "decoded"} {
+		for _, order := range []string{"interleaved", "sorted", "reversed", "rotated"} {
+			for _, n := range sizes {
+				out = append(out, fmt.Sprintf("bulk-%s-%s-%d", ctor, order, n))
+			}
+		}
+	}
+	return out
+}
+
 func profiles(r *eng.Run) map[string]*profile {
+	m := profilesAB(r)
+	// C: bulk nodes (13..20 links over 4 names incl. the empty name, every name
+	// duplicated, 4 initial orders, 3 ways of construction), normal alphabet on top
+	m["C"] = &profile{Name: "C", Observers: []string{"Cid", "Links"}, Datas: []string{"nil"}, Builders: []string{"v1"},
+		Names: []string{"", "a", "c"}, Kinds: []string{"L1"}, NodeLink: []string{"b"}, SetLinks: []string{"rev"}, MaxLinks: 24,
+		Depth: eng.Pick(r, 2, 3), Starts: bulkStarts(eng.Pick(r, []int{13, 16, 20}, []int{12, 13, 14, 16, 17, 20}))}
+	return m
+}
+
+func profilesAB(r *eng.Run) map[string]*profile {
 	obsAll := []string{"Cid", "RawData", "Links", "EncodeForce", "Tree", "MarshalJSON", "Size"}
 	if !r.Thorough() {
 		return map[string]*profile{
@@ -786,7 +898,7 @@ var starts = []string{"fresh", "decoded-sorted", "decoded-unsorted", "decoded-bl
 func spec(r *eng.Run) eng.SeqSpec {
 	profs := profiles(r)
 	return eng.SeqSpec{
-		Configs: []string{"B", "A"},
+		Configs: []string{"C", "B", "A"},
 		New:     func(c string) eng.Sys { return newSys(c, profs) },
 		Depth:   100, // phase A ends by closure, phase B by its own depth bound (Ops() is empty beyond it)
 		NonTrivial: func(cfg string, p []string) bool { return len(p) >= 3 },
@@ -795,7 +907,7 @@ func spec(r *eng.Run) eng.SeqSpec {
 
 func main() {
 	eng.Main("C11", "model_checking", func(r *eng.Run) {
-		r.Rule("BFS over sequences of ProtoNode mutations (AddRawLink/AddNodeLink/RemoveNodeLink/SetLinks/SetData/SetCidBuilder/Copy) interleaved with cache-touching observers (Cid/RawData/Links/EncodeProtobuf(true)/Tree/MarshalJSON/Size); successor = replay on a fresh node + 1 op; state = model (data, ordered links, builder) + private cache flags (encoded, cached CID, linksDirty, in-memory link order); non-trivial = path of >= 2 operations. Phase A: <=2 links, run until no new state appears (closure). Phase B: larger link pool with empty/duplicate names, depth-bounded. After every transition: Cid()==builder.Sum(RawData()), RawData parsed by an independent protobuf reader has the model's data and links in sorted-by-name / insertion order, DecodeProtobuf(RawData()) has the same data and links, and (distinct names) a fresh node built in every insertion order encodes to the same bytes.")
+		r.Rule("BFS over sequences of ProtoNode mutations (AddRawLink/AddNodeLink/RemoveNodeLink/SetLinks/SetData/SetCidBuilder/Copy) interleaved with cache-touching observers (Cid/RawData/Links/EncodeProtobuf(true)/Tree/MarshalJSON/Size); successor = replay on a fresh node + 1 op; state = model (data, ordered links, builder) + private cache flags (encoded, cached CID, linksDirty, in-memory link order); non-trivial = path of >= 2 operations. Phase A: <=2 links, run until no new state appears (closure). Phase B: larger link pool with empty/duplicate names, depth-bounded. Phase C: bulk nodes with 13..20 links (4 names incl. empty, all duplicated; built by AddRawLink xN, SetLinks, or decoding; initial order interleaved/sorted/reversed/rotated) with the alphabet on top to depth 2/3, so that size thresholds of the sort routine are crossed. After every transition: Cid()==builder.Sum(RawData()), RawData parsed by an independent protobuf reader has the model's data and links in sorted-by-name / insertion order, DecodeProtobuf(RawData()) has the same data and links, and (distinct names) a fresh node built in every insertion order encodes to the same bytes.")
 		r.Assume("go-cid Prefix.Sum / go-multihash compute the hash functions correctly")
 		r.Assume("a node decoded from an unsorted encoding is required to serialize sorted only after its first link mutation or Copy (documented behaviour of fromImmutableNode); before that its links are compared as a multiset")
 		all := map[string]any{}
